@@ -35,12 +35,14 @@ void Dma::Channel::Start() {
 
 void Dma::Channel::Tick(Dma& parent) {
     static constexpr u32 DataMemoryOffset = 0x20000;
+    // DSP-side addresses select a word of the two data banks, as in MemoryInterface::DataReadA32
+    static constexpr u32 DataMemoryMask = 0x1FFFF;
     if (dword_mode) {
         u32 value = 0;
         switch (src_space) {
         case 0: {
-            u32 l = current_src & 0xFFFFFFFE;
-            u32 h = current_src | 1;
+            u32 l = current_src & DataMemoryMask & 0xFFFFFFFE;
+            u32 h = (current_src & DataMemoryMask) | 1;
             value = parent.shared_memory.ReadWord(DataMemoryOffset + l) |
                     ((u32)parent.shared_memory.ReadWord(DataMemoryOffset + h) << 16);
             break;
@@ -58,8 +60,8 @@ void Dma::Channel::Tick(Dma& parent) {
 
         switch (dst_space) {
         case 0: {
-            u32 l = current_dst & 0xFFFFFFFE;
-            u32 h = current_dst | 1;
+            u32 l = current_dst & DataMemoryMask & 0xFFFFFFFE;
+            u32 h = (current_dst & DataMemoryMask) | 1;
             parent.shared_memory.WriteWord(DataMemoryOffset + l, (u16)value);
             parent.shared_memory.WriteWord(DataMemoryOffset + h, (u16)(value >> 16));
             break;
@@ -80,7 +82,7 @@ void Dma::Channel::Tick(Dma& parent) {
         u16 value = 0;
         switch (src_space) {
         case 0:
-            value = parent.shared_memory.ReadWord(DataMemoryOffset + current_src);
+            value = parent.shared_memory.ReadWord(DataMemoryOffset + (current_src & DataMemoryMask));
             break;
         case 1:
             std::printf("Unimplemented MMIO space");
@@ -95,7 +97,7 @@ void Dma::Channel::Tick(Dma& parent) {
 
         switch (dst_space) {
         case 0:
-            parent.shared_memory.WriteWord(DataMemoryOffset + current_dst, value);
+            parent.shared_memory.WriteWord(DataMemoryOffset + (current_dst & DataMemoryMask), value);
             break;
         case 1:
             std::printf("Unimplemented MMIO space");
